@@ -53,17 +53,54 @@ type C02Exec struct {
 }
 
 type C02Case struct {
-	Cfg     EngCfg   `json:"cfg"`
-	Env     *Env     `json:"env"`
-	Tree    []*TNode `json:"tree"`
-	Source  string   `json:"source"`
-	EnvOnly bool     `json:"env_only,omitempty"`
-	A       *C02Exec `json:"exec_a,omitempty"` // the two executions that disagree
-	B       *C02Exec `json:"exec_b,omitempty"`
-	Dim     string   `json:"dimension,omitempty"`
+	Cfg     EngCfg     `json:"cfg"`
+	Env     *Env       `json:"env"`
+	Tree    []*TNode   `json:"tree"`
+	Source  string     `json:"source"`
+	EnvOnly bool       `json:"env_only,omitempty"`
+	Prefix  *C02Prefix `json:"process_history,omitempty"`
+	A       *C02Exec   `json:"exec_a,omitempty"` // the two executions that disagree
+	B       *C02Exec   `json:"exec_b,omitempty"`
+	Dim     string     `json:"dimension,omitempty"`
+}
+
+// C02Prefix names the earlier activity of the process in which a fresh-process
+// divergence was seen: the cases index%shards == this.index%shards below index.
+type C02Prefix struct {
+	Index  int    `json:"index"`
+	Shards int    `json:"shards"`
+	Tier   string `json:"tier"`
 }
 
 var t0 = time.Unix(1700000000, 0).UTC()
+
+// c02Canon (mode c02canon): a pristine child process executes the canonical
+// run of the case given on stdin and prints the result tuple.
+func c02Canon() {
+	scrubAddrs, noAddr = false, false
+	simrt.SimPools = true
+	var cs C02Case
+	if err := json.NewDecoder(os.Stdin).Decode(&cs); err != nil {
+		fatal("c02canon: %v", err)
+	}
+	x := newC02Run(&cs, "")
+	res := x.exec(&C02Exec{Order: simrt.OrderAsc, EP: EPRender})
+	fmt.Print(res.Key()) // %q-escaped: safe for output that is not valid UTF-8
+}
+
+func (x *c02Run) execChild() (string, bool) {
+	cmd := exec.Command(os.Args[0], "c02canon")
+	cmd.Env = append(os.Environ(), "TZ=UTC")
+	b, _ := json.Marshal(x.cs)
+	cmd.Stdin = bytes.NewReader(b)
+	var so bytes.Buffer
+	cmd.Stdout = &so
+	cmd.Stderr = os.Stderr
+	if err := cmd.Run(); err != nil {
+		return "", false
+	}
+	return so.String(), true
+}
 
 func genC02(r *Rng, idx int) *C02Case {
 	cs := &C02Case{Cfg: EngCfg{Strict: r.Chance(0.1)}}
@@ -292,6 +329,29 @@ func c02Find(c *Ctx, cs *C02Case, r *Rng, out *CaseOut, wantSig string) []c02Fai
 	nontrivial := strings.Contains(cs.Source, "{{") || strings.Contains(cs.Source, "{%")
 	var fails []c02Fail
 	seen := map[string]bool{}
+	if (c != nil || strings.HasPrefix(wantSig, "diverge|fresh-process|")) && nontrivial {
+		// fresh-process dimension: the same canonical execution in a pristine child
+		// process (no earlier activity at all) must give the same tuple
+		if cr, ok := x.execChild(); ok {
+			out.Evals++
+			if c != nil {
+				c.count("fault:fresh-process", 1)
+			}
+			if addrRe.ReplaceAllString(cr, "A") != addrRe.ReplaceAllString(base.Key(), "A") {
+				sig := "diverge|fresh-process|" + c02Construct(u)
+				if wantSig == "" || strings.HasPrefix(wantSig, "diverge|fresh-process|") {
+					seen[sig] = true
+					fails = append(fails, c02Fail{dim: "fresh-process", sig: sig, a: canon, b: canon,
+						detail: fmt.Sprintf("the canonical render gives %s in this process (after its earlier activity) but %s in a fresh process: output depends on earlier activity in the process", clip(base.Key()), clip(cr))})
+					if wantSig != "" {
+						return fails
+					}
+				}
+			}
+		} else if c != nil {
+			c.count("fresh_process_child_failed", 1)
+		}
+	}
 	for _, v := range vars {
 		res := x.exec(v.ex)
 		out.Evals++
@@ -434,6 +494,15 @@ func (ck c02) RunCase(c *Ctx, idx int) *CaseOut {
 func c02Violation(c *Ctx, cs *C02Case, f c02Fail, idx int) *Violation {
 	orig := *cs
 	orig.A, orig.B, orig.Dim = f.a, f.b, f.dim
+	if f.dim == "fresh-process" {
+		// the divergence needs this process's earlier activity: not minimised; the replay
+		// re-runs the shard's earlier cases first
+		if c.Shards > 0 {
+			orig.Prefix = &C02Prefix{Index: idx, Shards: c.Shards, Tier: c.Tier}
+		}
+		ob, _ := json.Marshal(orig)
+		return &Violation{Property: "C02", Clause: "same-result", Detail: f.detail, Signature: "diverge|fresh-process|", Seed: c.Seed, Index: idx, Case: ob}
+	}
 	ob, _ := json.Marshal(orig)
 	if !c.mayMinimise(f.sig) {
 		return &Violation{Property: c.Prop, Clause: "same-result", Detail: f.detail, Signature: f.sig, Seed: c.Seed, Index: idx, Case: ob}
@@ -511,6 +580,14 @@ func (ck c02) Replay(c *Ctx, v *Violation) *Violation {
 	var cs C02Case
 	if err := json.Unmarshal(v.Case, &cs); err != nil {
 		fatal("replay: %v", err)
+	}
+	if cs.Dim == "fresh-process" && cs.Prefix != nil {
+		c.Tier = cs.Prefix.Tier
+		for i := cs.Prefix.Index % cs.Prefix.Shards; i < cs.Prefix.Index; i += cs.Prefix.Shards {
+			simrt.ResetPools()
+			ck.RunCase(c, i) // the earlier activity of the process the divergence was seen in
+		}
+		scrubAddrs, noAddr = false, false
 	}
 	if cs.Dim == "returned-bytes" || cs.Dim == "fresh-process" {
 		o := &CaseOut{}
